@@ -162,7 +162,7 @@ func (w *World) decoderRows(k *Kind, dfi *FuncInfo) (rows [][5]string, needs []s
 				o = o.Reroot2(ob, fl)
 			}
 			noteNeeds(o)
-			if cls == "bytes" && !isPadSrc(f) {
+			if cls == "bytes" && !isPadSrc(f) && !isPaddingField(w, k.Name, f) {
 				ww := rawW
 				for ob, fl := range objField {
 					ww = ww.Reroot2(ob, fl)
